@@ -214,6 +214,19 @@ def op_menu(w, rng, tmpdir):
                 lambda ww: ww.mgr.exist(set(qv), ww.held[j])))
     ops.append((('quantify', dict(u=refval(j, 1), qvars=qv, forall=True, route='short')),
                 lambda ww: ww.mgr.forall(set(qv), ww.held[j])))
+    if w.kind == 'autoref':
+        # the METHOD forms of dd.autoref.Function (dd._abc.Operator): their own
+        # argument handling runs before the manager's decorated call
+        ops.append((('quantify', dict(u=refval(j, 1), qvars=qv, forall=False, route='Function')),
+                    lambda ww: ww.held[j].exist(*qv)))
+        ops.append((('quantify', dict(u=refval(i, 1), qvars=qv, forall=True, route='Function')),
+                    lambda ww: ww.held[i].forall(*qv)))
+        ops.append((('apply', dict(op='implies', args=[refval(i, 1), refval(j, 1)])),
+                    lambda ww: ww.held[i].implies(ww.held[j])))
+        ops.append((('apply', dict(op='equiv', args=[refval(k, 1), refval(j, 1)])),
+                    lambda ww: ww.held[k].equiv(ww.held[j])))
+        ops.append((('apply', dict(op='and', args=[refval(i, 1), refval(k, 1)])),
+                    lambda ww: ww.held[i] & ww.held[k]))
     cube = ww_cube = {x: rng.random() < 0.5 for x in rng.sample(names, rng.randint(1, n))}
     nms = sorted(cube)
     ops.append((('cofactor', dict(u=refval(i, 1), names=nms, vals=[cube[x] for x in nms], route='let')),
@@ -273,6 +286,18 @@ def op_menu(w, rng, tmpdir):
         r = ww.mgr.load(fn)
         return list(r)
     ops.append((('other', dict(what='load')), load))
+
+    def load_names(ww):          # levels=False: the file's levels are mapped by NAME
+        ww.same.dump(fn, roots=[ww.same_u])
+        r = ww.mgr.load(fn, levels=False)
+        return list(r)
+    ops.append((('other', dict(what='load_names')), load_names))
+
+    def load_noroots(ww):        # a file dumped without naming roots; nothing is returned
+        ww.same.dump(fn)
+        r = ww.mgr.load(fn, levels=bool(i % 2))
+        return list(r) if r else []
+    ops.append((('other', dict(what='load_noroots')), load_noroots))
     if n >= 4:
         # image / preimage on adjacent pairs (a,b), (c,d)
         def pre(ww, fa):
